@@ -11,7 +11,7 @@ CLAIMS = {
              "grow_to_at_least_covers (every n < 2^64) and the refutation of the historical int-cast decision are proved in Coq over the model; "
              "the model is run against the real segment_table/concurrent_vector on boundary-dense indices and growth sequences incl. n >= 2^31 on every run. Gate exploration of the real vector "
              "(2-4 logical threads, throwing allocator, directed 'late segment owner' schedules): no construction outside live memory, no element constructed twice, at(i) works or throws, "
-             "grow_to_at_least(n) does not return while a segment below n is unallocated, every index below size() has storage; real threads: tiling, values, element addresses stable while the vector grows. Two defects found and repaired (fix: bc8f980 int-cast decision; fix: d40e28d early return of the growing call).",
+             "grow_to_at_least(n) does not return while a segment below n is unallocated, every index below size() has storage; real threads: tiling, values, element addresses stable while the vector grows. A throwing element constructor at every call index of grow_by / grow_to_at_least / push_back (each case in a forked child): no crash, safe accesses, destructible. Three defects found and repaired (fix: bc8f980 int-cast decision; fix: d40e28d early return of the growing call; fix: 145e9bf clean-up after a throwing constructor wrote through unallocated segments).",
         note="Trusted: Coq kernel, extraction (ExtrOcamlBasic), dump_params, drivers. Modelled not verified: segment allocation/first-block election/"
              "table extension and allocation-failure handling (gate exploration and real-thread oracle runs only); 'constructed' is checked as 'segment allocated and this call's own elements hold its value' — "
              "elements of other calls still in flight may be under construction, as the library documents.",
